@@ -4,6 +4,14 @@ import json, os
 V = os.path.dirname(os.path.dirname(os.path.abspath(__file__)))
 
 CLAIMED = {
+ 'C09': dict(
+  text='Static decision of the structural clauses of HTTP request parsing: on every path through HttpRequest::read the path is percent-decoded '
+       'and then stripped of ".." with nothing decoding or rewriting it afterwards (typestate over the CFG), no other writer of the path, file '
+       'server uses only request.path(), every constant index into a split() result is dominated by a length test (evaluated for all shorter '
+       'lengths), query cut only before the fragment, look-ahead guards of Url::decode/Url::Url, line cap and EOF exits of the readers, '
+       'case-insensitive header keying and value extraction. Totality/promptness on all streams and body framing are not decided.',
+  technique='CFG typestate dataflow (decode-then-sanitise ordering), single-writer query, dominating-guard implication checks evaluated over the finite index range, structural loop-exit queries',
+  ref='DESIGN.md section 3 C09'),
  'C11': dict(
   text='Static decision of the structural clauses of WebSocket framing: the 64-bit wire length reaches int only through a dominating range '
        'check, send/receive agree on the RFC 6455 header (length-form boundaries evaluated at 125/126/65535/65536, markers, widths, bit masks, '
